@@ -136,6 +136,11 @@ def run(ctx):
              "the compound branch no longer returns the done-ness of the active child", cb_)
         sel = [x for s_ in cb_.body for x in ast.walk(s_) if isinstance(x, ast.GeneratorExp) and "_active_state_nodes" in norm(x.generators[0].iter)]
         okp = any(any((cp := compare_parts(cnd)) is not None and isinstance(cp[1], (ast.Eq, ast.Is)) and ".parent" in norm(cp[0]) + norm(cp[2]) for cnd in x.generators[0].ifs) for x in sel)
+        # the same selection written as a loop:  for s in active: if s.parent == state: child = s; break
+        for lp_ in [x for s_ in cb_.body for x in ast.walk(s_) if isinstance(x, ast.For) and "_active_state_nodes" in norm(x.iter)]:
+            for y in ast.walk(lp_):
+                if isinstance(y, ast.If) and (cp := compare_parts(y.test)) is not None and isinstance(cp[1], (ast.Eq, ast.Is)) and ".parent" in norm(cp[0]) + norm(cp[2]):
+                    okp = True
         c.ob("R7", okp, isd, "active-child-is-a-child", "the active child is selected by 'parent is this state'" if okp else
              "the active child of a compound state is no longer selected by its parent being that state", cb_)
     fin = [x for x in own_nodes(isd.node) if isinstance(x, ast.If) and any(atom_is_type_test(a, "final") is True for a in __import__("sa.cfg", fromlist=["split_atoms"]).split_atoms(x.test, True))]
